@@ -44,7 +44,10 @@ ANNOT_CLASSES = {"Grid", "Layout", "LayoutManager", "LayoutHandler", "LayoutSwap
 # name-uniqueness alone
 AMBIGUOUS = {"transpose", "reduce", "min", "max", "copy", "reshape", "flatten", "index", "count", "pop",
              "append", "extend", "items", "keys", "values", "get", "eval", "step", "format", "split", "close",
-             "create", "sum", "all", "any", "solve", "dot", "conj", "remove", "update", "sort"}
+             "create", "sum", "all", "any", "solve", "dot", "conj", "remove", "update", "sort",
+             "insert", "clear", "reverse", "fill", "view", "item", "tolist", "astype", "ravel", "squeeze", "mean", "prod",
+             "send", "throw", "read", "write", "join", "find", "replace", "strip", "lower", "upper", "add", "discard",
+             "setdefault", "popitem", "next", "start", "run", "put", "take", "round", "clip", "cumsum", "argsort", "swapaxes"}
 
 
 class Program:
@@ -112,19 +115,37 @@ class Program:
                         t = src(a.annotation).split(".")[-1].strip("'\"")
                         if t in self.classes:
                             return [t]
-                # constructor / factory call in scope
+                # constructor / factory call in scope.  AUDIT: the name may be bound several times; every class it is given by a
+                # constructor / factory call is a candidate (a MAY set, as for the receiver table) - not only the first one met
+                found = []
                 for n in ast.walk(fn):
+                    tg, val = None, None
                     if isinstance(n, ast.Assign) and isinstance(n.value, ast.Call):
-                        tg = n.targets[0]
-                        names = [tg.id] if isinstance(tg, ast.Name) else \
-                            [e.id for e in tg.elts[:1] if isinstance(e, ast.Name)] if isinstance(tg, ast.Tuple) else []
-                        if expr.id in names:
-                            f = n.value.func
-                            fname = f.id if isinstance(f, ast.Name) else f.attr if isinstance(f, ast.Attribute) else ""
-                            if fname in self.classes and isinstance(tg, ast.Name):
-                                return [fname]
-                            if fname in RETURNS:
-                                return [RETURNS[fname]]
+                        tg, val = n.targets[0], n.value
+                    elif isinstance(n, ast.AnnAssign) and isinstance(n.target, ast.Name) and n.target.id == expr.id:
+                        t = src(n.annotation).split(".")[-1].strip("'\"")
+                        if t in self.classes and t not in found:
+                            found.append(t)
+                        continue
+                    elif isinstance(n, ast.NamedExpr) and isinstance(n.value, ast.Call):
+                        tg, val = n.target, n.value
+                    elif isinstance(n, ast.withitem) and n.optional_vars is not None and isinstance(n.context_expr, ast.Call):
+                        continue          # `with C() as x`: x is what __enter__ returns, not the C object: not typed
+                    if tg is None:
+                        continue
+                    names = [tg.id] if isinstance(tg, ast.Name) else \
+                        [e.id for e in tg.elts[:1] if isinstance(e, ast.Name)] if isinstance(tg, ast.Tuple) else []
+                    if expr.id in names:
+                        f = val.func
+                        fname = f.id if isinstance(f, ast.Name) else f.attr if isinstance(f, ast.Attribute) else ""
+                        if fname in self.classes and isinstance(tg, ast.Name):
+                            if fname not in found:
+                                found.append(fname)
+                        elif fname in RETURNS:
+                            if RETURNS[fname] not in found:
+                                found.append(RETURNS[fname])
+                if found:
+                    return found
             return []
         key = s
         if isinstance(expr, ast.Subscript):
@@ -152,6 +173,9 @@ class Program:
         if p is not None:
             cls_name = p.name
         f = call.func
+        if isinstance(f, ast.Name) and f.id == "next" and call.args and f.id not in self.funcs:
+            # next(g): the code that runs is the body of the generator g was made from
+            return self.generator_sources(call.args[0], fn, rel)
         if isinstance(f, ast.Name):
             if f.id in self.classes:
                 init = self.find_method(f.id, "__init__")
@@ -180,9 +204,70 @@ class Program:
                         res.append((r, f"{c}.{f.attr}", n))
             if res:
                 return res
+            # AUDIT: receiver of unknown type: every method of that name in the analysed units (a MAY set; see resolve_how).
+            # Names that numpy arrays / builtins / MPI objects also have are never resolved this way (AMBIGUOUS)
             if not types and f.attr in self.methods and f.attr not in AMBIGUOUS and not f.attr.startswith("__"):
                 return [(r, f"{c}.{f.attr}", n) for r, c, n in self.methods[f.attr]]
         return []
+
+    @staticmethod
+    def is_generator(fn):
+        """does the function contain a yield of its own (not one of a nested function)?"""
+        todo = list(fn.body)
+        while todo:
+            n = todo.pop()
+            if isinstance(n, (ast.Yield, ast.YieldFrom)):
+                return True
+            if isinstance(n, (ast.FunctionDef, ast.AsyncFunctionDef, ast.Lambda, ast.ClassDef)):
+                continue
+            todo += list(ast.iter_child_nodes(n))
+        return False
+
+    def generator_sources(self, e, fn, rel, _depth=0):
+        """the generator functions of the analysed units an iterator expression runs: a call of one, iter(<such a call>), or a
+        local name bound to one in the enclosing function.  [] when unknown (never a guess by name)"""
+        if _depth > 4 or e is None:
+            return []
+        if isinstance(e, ast.Call):
+            f = e.func
+            if isinstance(f, ast.Name) and f.id in ("iter", "enumerate", "reversed") and e.args:
+                return self.generator_sources(e.args[0], fn, rel, _depth + 1)
+            if isinstance(f, ast.Name) and f.id in ("zip", "map", "filter", "chain"):
+                out = []
+                for a in e.args:
+                    out += [c for c in self.generator_sources(a, fn, rel, _depth + 1) if c not in out]
+                return out
+            return [(r, q, n) for r, q, n in self.resolve(e, rel) if self.is_generator(n)]
+        if isinstance(e, ast.Name) and fn is not None:
+            out = []
+            for n in ast.walk(fn):
+                val = None
+                if isinstance(n, ast.Assign) and any(isinstance(t, ast.Name) and t.id == e.id for t in n.targets):
+                    val = n.value
+                elif isinstance(n, ast.NamedExpr) and isinstance(n.target, ast.Name) and n.target.id == e.id:
+                    val = n.value
+                if val is not None and not (isinstance(val, ast.Name) and val.id == e.id):
+                    out += [c for c in self.generator_sources(val, fn, rel, _depth + 1) if c not in out]
+            return out
+        return []
+
+    def resolve_how(self, call: ast.Call, rel: str):
+        """-> (candidates, how) with how in 'none' | 'exact' (a name, a class, self/typed receiver) | 'by-name' (an untyped
+        receiver whose method name is defined in the analysed units: a MAY set that can contain a callee the call never reaches,
+        e.g. when the receiver is an object of a library).  Callers that turn `the callee does X` into a violation should require
+        'exact'."""
+        res = self.resolve(call, rel)
+        if not res:
+            return res, "none"
+        f = call.func
+        if isinstance(f, ast.Attribute) and not (isinstance(f.value, ast.Name) and (f.value.id in self.classes or self._is_module_alias(f.value.id, rel))):
+            fn = enclosing_function(call)
+            p = parent(fn) if fn is not None else None
+            while p is not None and not isinstance(p, ast.ClassDef):
+                p = parent(p)
+            if not self.type_of(f.value, fn, p.name if p is not None else None):
+                return res, "by-name"
+        return res, "exact"
 
     def _is_module_alias(self, name, rel):
         for st in self.mods[rel].tree.body:
